@@ -15,7 +15,8 @@ from concurrent.futures import ThreadPoolExecutor
 VERIF = os.path.dirname(os.path.dirname(os.path.abspath(__file__)))
 # which checks see a change written against a property
 ALSO = {'C01': ['C13'], 'C02': ['C01', 'C08'], 'C09': ['C01', 'C12'], 'C10': ['C01', 'C11'], 'C11': ['C01'],
-        'C13': ['C01'], 'C14': ['C01'], 'C12': ['C09'], 'C03': [], 'C04': []}
+        'C13': ['C01'], 'C14': ['C01'], 'C12': ['C09'], 'C03': [], 'C04': [], 'C05': ['C10'], 'C06': ['C07'],
+        'C07': ['C06'], 'C08': ['C02', 'C01'], 'C15': ['C16', 'C17'], 'C16': ['C15', 'C17'], 'C17': ['C15', 'C16']}
 
 
 def work(args):
